@@ -181,6 +181,11 @@ func (w *world) oracle(res *result, prev, cur []row, stepped []*actorT) {
 			}
 		}
 	}
+	for _, a := range stepped {
+		if a.limitViol != "" {
+			res.fail("getjournals-limit", a.limitViol)
+		}
+	}
 	// a partition just handed to a client is present and not exclusive
 	for _, a := range stepped {
 		if a.status != stParked {
@@ -531,6 +536,9 @@ func main() {
 		}
 		for i := 0; i < c.N(200); i++ {
 			jobs = append(jobs, job{rp: genRaw(c.Rng.Fork()), stream: "raw"})
+		}
+		for _, rp := range limitCorpus() {
+			jobs = append(jobs, job{rp: rp, stream: "corpus"})
 		}
 		// fixed raw histories for branches the random ones never take: Release of a partition its
 		// holder has locked exclusively (panic), UnlockExclusively of a partition that is merely held
